@@ -49,6 +49,7 @@ func H_C03_raw(v *V) {
 	var p *Parser
 	var a *bool
 	var b *string
+	var cmdD *bool
 	var pos func() []string
 	var execLog []string
 	switch variant {
@@ -74,11 +75,13 @@ func H_C03_raw(v *V) {
 		pos = func() []string { return append([]string{o.Pos.X}, o.Pos.R...) }
 	case 3:
 		sp.cmds = []string{"cmd"}
+		sp.cmdFlags = []string{"-d"}
 		o := &c03P3{}
 		o.Cmd.log = &execLog
 		p = NewNamedParser("prog", opts)
 		p.AddGroup("Application Options", "", o)
 		a, b = &o.A, &o.B
+		cmdD = &o.Cmd.D
 		pos = func() []string { return nil }
 	}
 	in := append([]string{}, argv...)
@@ -99,7 +102,11 @@ func H_C03_raw(v *V) {
 			}
 		}
 		v.Assert(v.EqStrs(pos(), want), "positional arguments receive the passed-through tokens first")
-		v.Assert(*a == ref.a, "flag value")
+		if cmdD == nil {
+			v.Assert(*a == ref.a, "flag value")
+		} else {
+			v.Assert((*a || *cmdD) == ref.a, "flag value")
+		}
 		v.Assert(v.EqStr(*b, ref.b), "option value")
 		if variant == 3 {
 			v.Assert(v.EqStrs(execLog, append([]string{"!"}, ref.rest...)), "the executed command receives exactly the remaining arguments")
@@ -174,6 +181,7 @@ func H_C03_items(v *V) {
 		pos = func() []string { return append([]string{o.Pos.X}, o.Pos.R...) }
 	case 3:
 		sp.cmds = []string{"cmd"}
+		sp.cmdFlags = []string{"-d"}
 		o := &c03P3{}
 		o.Cmd.log = &execLog
 		p = NewNamedParser("prog", opts)
